@@ -9,7 +9,7 @@ use cwe_checker_lib::pipeline::AnalysisResults;
 use verif_harness::ir::*;
 use verif_harness::*;
 
-const SYMS: [&str; 8] = ["access", "open", "chroot", "chdir", "setuid", "setresuid", "puts", "stat"];
+const SYMS: [&str; 10] = ["access", "open", "chroot", "chdir", "setuid", "setresuid", "puts", "stat", "fopen", "setgid"];
 
 fn warn_json(w: &CweWarning) -> Value {
     json!({"t": w.tids, "a": w.addresses, "s": w.symbols, "d": w.description})
@@ -23,9 +23,8 @@ fn run_check(project: &Project, which: &str, params: &Value) -> Value {
             "367" => (cwe_367::CWE_MODULE.run)(&ar, params),
             _ => (cwe_243::CWE_MODULE.run)(&ar, params),
         };
-        let mut ws: Vec<(String, Value)> = warnings.iter().map(|w| (warn_json(w).to_string(), warn_json(w))).collect();
-        ws.sort_by(|a, b| a.0.cmp(&b.0));
-        Value::Array(ws.into_iter().map(|x| x.1).collect())
+        // in the order the checker emitted them
+        Value::Array(warnings.iter().map(warn_json).collect())
     }));
     match r {
         Ok(v) => v,
@@ -122,10 +121,11 @@ fn gen_project(rng: &mut Rng, out: &mut Out) -> Project {
     for (i, name) in SYMS.iter().enumerate() {
         let p = match (theme, *name) {
             (0 | 1, "access" | "open") => 6,
+            (0 | 1, "fopen" | "stat") => 4,
             (0 | 1, _) => 1,
             (2 | 3, "chroot") => 6,
             (2 | 3, "chdir") => 4,
-            (2 | 3, "setuid" | "setresuid") => 3,
+            (2 | 3, "setuid" | "setresuid" | "setgid") => 3,
             (2 | 3, _) => 1,
             (_, "chroot") => 5,
             (_, "chdir" | "access" | "open") => 4,
@@ -153,21 +153,49 @@ fn gen_project(rng: &mut Rng, out: &mut Out) -> Project {
     project_x64(program(subs, exts, vec![tid("f0")]))
 }
 
-fn gen_params(rng: &mut Rng) -> (Value, Value) {
-    let pairs = match rng.below(8) {
-        0 => json!([["access", "open"], ["stat", "open"]]),
-        1 => json!([["access", "access"]]),
-        2 => json!([["chroot", "chdir"]]),
-        3 => json!([["open", "access"], ["access", "open"]]),
-        _ => json!([["access", "open"]]),
-    };
-    let privs = match rng.below(5) {
-        0 => json!([]),
-        1 => json!(["setuid"]),
-        2 => json!(["setresuid", "setgroups"]),
-        _ => json!(["setgid", "setgroups", "setuid", "setresuid"]),
-    };
-    (json!({"pairs": pairs}), json!({"priviledge_dropping_functions": privs}))
+/// random configuration: 1-4 (check, use) pairs with repeated check functions, repeated use functions,
+/// a pair listed twice, symbols that are not imported, check == use, in random order; the list of
+/// privilege-dropping functions with duplicates, not imported names, random order
+fn gen_params(rng: &mut Rng, out: &mut Out) -> (Value, Value) {
+    const SRC: [&str; 6] = ["access", "access", "stat", "open", "chroot", "lstat"];
+    const SNK: [&str; 7] = ["open", "open", "fopen", "access", "chdir", "stat", "unlink"];
+    let n = 1 + rng.below(4) as usize;
+    let mut pairs: Vec<(String, String)> = Vec::new();
+    for _ in 0..n {
+        let c = rng.below(12);
+        let pr = if !pairs.is_empty() && c == 0 {
+            out.count("cfg367:pair-twice");
+            rng.pick(&pairs).clone()
+        } else if !pairs.is_empty() && c < 4 {
+            out.count("cfg367:same-check");
+            (rng.pick(&pairs).0.clone(), rng.pick(&SNK).to_string())
+        } else if !pairs.is_empty() && c < 6 {
+            out.count("cfg367:same-use");
+            (rng.pick(&SRC).to_string(), rng.pick(&pairs).1.clone())
+        } else if c == 6 {
+            out.count("cfg367:check-equals-use");
+            let x = rng.pick(&SRC).to_string();
+            (x.clone(), x)
+        } else if c < 9 {
+            ("access".to_string(), rng.pick(&SNK).to_string())
+        } else {
+            (rng.pick(&SRC).to_string(), rng.pick(&SNK).to_string())
+        };
+        pairs.push(pr);
+    }
+    rng.shuffle(&mut pairs);
+    out.count(&format!("cfg367:pairs-{}", pairs.len()));
+    const PRIV: [&str; 6] = ["setuid", "setresuid", "setgid", "setgroups", "puts", "chdir"];
+    let m = rng.below(5) as usize;
+    let mut privs: Vec<String> = (0..m).map(|_| rng.pick(&PRIV).to_string()).collect();
+    if !privs.is_empty() && rng.chance(1, 4) {
+        out.count("cfg243:duplicate");
+        let d = rng.pick(&privs).clone();
+        privs.push(d);
+    }
+    rng.shuffle(&mut privs);
+    out.count(&format!("cfg243:privs-{}", privs.len()));
+    (json!({"pairs": pairs.iter().map(|(a, b)| json!([a, b])).collect::<Vec<_>>()}), json!({"priviledge_dropping_functions": privs}))
 }
 
 fn emit(out: &mut Out, project: &Project, p367: &Value, p243: &Value) {
@@ -211,7 +239,7 @@ fn main() {
     let n = args.num("programs", 8000, 150000);
     for _ in 0..n {
         let project = gen_project(&mut rng, &mut out);
-        let (p367, p243) = gen_params(&mut rng);
+        let (p367, p243) = gen_params(&mut rng, &mut out);
         emit(&mut out, &project, &p367, &p243);
     }
     out.finish();
